@@ -52,14 +52,24 @@ BadKinds ==
     "putmeta_data_emptystr", "putmeta_data_int", "putmeta_data_textstream",
     "putmeta_fmt_space", "putmeta_pid_none_data_none",
     "getmeta_pid_none", "getmeta_pid_empty", "getmeta_fmt_space", "getmeta_unknown",
-    "delmeta_pid_none", "delmeta_pid_empty", "delmeta_fmt_space" }
+    "delmeta_pid_none", "delmeta_pid_empty", "delmeta_fmt_space",
+    \* empty-string spellings of "a checksum without its algorithm or the reverse"
+    "store_sum_empty_no_algo", "store_sum_empty_algo_empty", "store_algo_empty_no_sum",
+    "store_sum_space", "dii_algo_empty", "dii_size_negative", "putmeta_fmt_nl",
+    \* a bad parameter together with validation data that does NOT match the object: the
+    \* call must be rejected for its arguments before any verdict is acted upon
+    "store_sumalgo_unsupported_size_wrong", "store_algo_unsupported_sum_wrong",
+    "dii_algo_unsupported_size_wrong", "dii_algo_unsupported_sum_wrong",
+    "dii_sum_space_size_wrong" }
 
 \* The documented error class(es): "badvalue" = ValueError, "badtype" = TypeError,
 \* "unsupported" = UnsupportedAlgorithm, "nopid" = PidRefsDoesNotExist, "notfound".
 \* A call with two bad parameters may be rejected for either.
 BadClass(k) ==
   CASE k \in {"store_algo_unsupported", "store_sumalgo_unsupported",
-              "dii_algo_unsupported"} -> {"unsupported"}
+              "dii_algo_unsupported", "store_sumalgo_unsupported_size_wrong",
+              "store_algo_unsupported_sum_wrong", "dii_algo_unsupported_size_wrong",
+              "dii_algo_unsupported_sum_wrong"} -> {"unsupported"}
     [] k = "hex_algo_unsupported" -> {"unsupported", "nopid"}
     [] k = "store_algo_unsupported_size_str" -> {"unsupported", "badtype"}
     [] k \in {"retrieve_unknown", "delete_unknown", "hex_unknown"} -> {"nopid"}
